@@ -2459,6 +2459,21 @@ func TestVerifWireMcp(t *testing.T) {
 				}
 			}
 		}
+		// ToolAnnotations: every combination of the four hints x title, under both encodings
+		step = newCase("tool-annotations")
+		for _, compat := range []string{"0", "1"} {
+			for _, dh := range []string{"-", "t", "f"} {
+				for _, ih := range []string{"t", "f"} {
+					for _, oh := range []string{"-", "t", "f"} {
+						for _, rh := range []string{"t", "f"} {
+							for _, title := range []string{"", "Tïtle/İ"} {
+								step(fmt.Sprintf("ann.rt %s %s %s %s %s s%s", compat, dh, ih, oh, rh, hxs(title)), "ann:rt", "ann-compat:"+compat)
+							}
+						}
+					}
+				}
+			}
+		}
 		// the CompleteReference codec: every combination of type x name x uri
 		step = newCase("complete-reference")
 		for _, t := range refTypes {
